@@ -3,7 +3,9 @@ from vlib.tok import f64, s as S, lst
 
 NAMES = ['a', 'b', 'c', 'A', 'a ', ' a', '..', 'x.y', 'ümlaut €', 'data_arrays', 'metadata', 'name with spaces', 'n' * 120,
          'L' * 255, 'M' * 256, 'long ' * 80,       # link names at and beyond 255 / 256 bytes
-         'aaaaaaaa-bbbb-cccc-dddd-eeeeeeeeeeee', '12345678-1234-1234-1234-123456789abc', 'tab\there', '0', 'sources', 'e1', 'e2', 'e3', 'e4']
+         'aaaaaaaa-bbbb-cccc-dddd-eeeeeeeeeeee', '12345678-1234-1234-1234-123456789abc', 'tab\there',
+         # dashes where a UUID has them, but longer / shorter than one: names, not ids
+         '20240131-1530-rat7-ses2-hippocampus_CA1_lfp', '20240131-1530-rat7-ses2-hippocampus', 'abcdefgh-ijkl-mnop-qrst-uvwxyzabcdef', '0', 'sources', 'e1', 'e2', 'e3', 'e4']
 PLAIN = ['a', 'b', 'c', 'A', 'x.y', 'e1', 'e2', 'e3', 'e4', 'e5', 'e6', 'name with spaces', 'ümlaut €', '..', 'a ']
 BAD_NAMES = ['', 'a/b', '/']
 TYPES = ['t', 'nix.type', 'ü']
